@@ -173,7 +173,10 @@ pub fn reload<T: SerdeAPI>(x: &T, fmt: Fmt, chan: Chan, ctx: &mut Ctx) -> anyhow
             // (a "latest checkpoint" file rewritten over and over; here: the same rendering followed by a repeat
             // of its last bytes). Whatever the old file held, the new save must replace it completely.
             let stale = n % 3 != 2;
-            let p = scratch_dir().join(format!("t{:?}-{}.{}", std::thread::current().id(), if stale { 0 } else { n }, fmt.ext()));
+            // ... and it is ONE path per process ("latest.<ext>"): every object saved through the file channel by this
+            // worker process - run after run - goes to the same name, the way a checkpoint file is rewritten. Anything
+            // that remembers a path instead of reading the file shows up as a reload of an earlier object.
+            let p = if stale { scratch_dir().join(format!("latest.{}", fmt.ext())) } else { scratch_dir().join(format!("t{:?}-{}.{}", std::thread::current().id(), n, fmt.ext())) };
             if stale {
                 if let Ok(b) = to_bytes(x, fmt) {
                     let mut old = b.clone();
